@@ -79,3 +79,44 @@ def np_dag(p, ch, lab):
     if lab == "binint":
         return dag_matrix(p, ch, "bin", int)
     return dag_matrix(p, ch, lab, float)
+
+
+def sign_labs(p, ch, cap=64):
+    """All +-1 weight assignments of the DAG's edges (labelings 'signs:<mask>'), at most `cap`."""
+    e = sum(G.popcount(x) for x in ch)
+    n = 1 << e
+    if n <= cap:
+        return ["signs:%d" % m for m in range(n)]
+    step = n // cap
+    return ["signs:%d" % m for m in range(0, n, step)][:cap]
+
+
+# ------------------------------------------------------------------------------------------------
+# "wide" graphs: p = 10 with few edges.  Python iterates a set of small ints in increasing order only while
+# all members are < 8 ({1, 8} iterates as 8, 1), so code that relies on set iteration order is only exposed
+# by node indices >= 8.  Two families: every DAG / PDAG on 10 nodes with <= 2 edges, and targeted colliders
+# whose parent sets mix indices below and above 8.
+
+WIDE_P = 10
+
+
+def wide_sparse_codes(kind="dag", max_edges=2):
+    return sparse_codes(WIDE_P, max_edges, (1, 2) if kind == "dag" else (1, 2, 3))
+
+
+def wide_targeted():
+    """list of ch (children masks) on 10 nodes: colliders c <- S with S from {1,2,3,8,9}, with and without c -> 7."""
+    import itertools
+    out = []
+    pool = [1, 2, 3, 8, 9]
+    for c in (4, 0):
+        for k in (2, 3):
+            for S in itertools.combinations(pool, k):
+                for tail in (False, True):
+                    ch = [0] * WIDE_P
+                    for s_ in S:
+                        ch[s_] |= 1 << c
+                    if tail:
+                        ch[c] |= 1 << 7
+                    out.append(ch)
+    return out
